@@ -6,7 +6,7 @@ import time
 
 from pyvc import verify
 from bounded import gen, legacy
-from .common import ctx, std
+from .common import ctx, std, contract_samples
 
 FIX_SCRIPT = r'''
 from pyvc.source import Source
@@ -147,6 +147,8 @@ def check(run):
               "gate2:images.Images.deserialize", "meth:rpms.Rpms.deserialize_0_3", "meth:rpms.Rpms.deserialize_0_3:2v", "meth:images.Images._add_1_1"):
         if k in c.contracts:
             verify.verify(run, c.E, c.contracts[k], crosscheck=False)
+    contract_samples(run, c, ["gate:composeinfo.Variant.deserialize.children", "gate:composeinfo.Compose.deserialize.fields",
+                              "gate:composeinfo.Variants.deserialize", "meth:rpms.Rpms.deserialize_0_3", "meth:rpms.Rpms.deserialize_0_3:2v"])
     # ver.current: writers always emit the current version
     verify.verify(run, c.E, c.contracts["rt:rpms.Rpms"], only=("header_names_type_and_current_version", "version_current_after_load"))
     with run.obligation("ver.current#writers_set_current_version", "ast", ["productmd.common.Header.serialize", "productmd.treeinfo.Header.serialize"]) as ob:
